@@ -3,11 +3,17 @@ package main
 // C15: masking.
 
 import (
+	"bytes"
 	"fmt"
 	"math"
 	"math/rand"
+	"os"
+	"os/exec"
+	"path/filepath"
+	"strings"
 
 	"github.com/evolbioinfo/goalign/align"
+	"github.com/evolbioinfo/goalign/io/phylip"
 )
 
 func init() { register("c15", c15) }
@@ -94,6 +100,40 @@ func c15(args []string) error {
 		mr := modes[r.Intn(4)]
 		if r.Intn(6) == 0 {
 			mr = modes[r.Intn(len(modes))]
+		}
+		// goalign mask --ref-seq on a file holding the alignment twice: every alignment of the file gets the window asked for
+		if bin := os.Getenv("VERIF_GOALIGN_BIN"); bin != "" && ref != "" && ref != "nosuch" && alpha == align.NUCLEOTIDS && L > 0 && r.Intn(4) == 0 {
+			if a2, e := mkAlign(alpha, names, seqs); e == nil {
+				if tmpd, e := os.MkdirTemp("", "c15cli"); e == nil {
+					one := phylip.WriteAlignment(a2, false, false, false)
+					inf := filepath.Join(tmpd, "in.phy")
+					os.WriteFile(inf, []byte(one+one), 0644)
+					cs, cl := r.Intn(L), 1+r.Intn(3)
+					args := []string{"mask", "-p", "-i", inf, "--ref-seq", ref, "-s", fmt.Sprint(cs), "-l", fmt.Sprint(cl)}
+					if r.Intn(2) == 0 {
+						args = append(args, "--replace", "GAP")
+					}
+					cmd := exec.Command(bin, args...)
+					var stdout bytes.Buffer
+					cmd.Stdout = &stdout
+					agree := true
+					if cmd.Run() == nil {
+						ch := align.AlignChannel{Achan: make(chan align.Alignment, 10)}
+						go phylip.NewParser(bytes.NewReader(stdout.Bytes()), false).ParseMultiple(&ch)
+						var outs []string
+						for x := range ch.Achan {
+							n2, s2 := alignContent(x)
+							outs = append(outs, fmt.Sprint(n2, s2))
+						}
+						agree = ch.Err == nil && len(outs) == 2 && outs[0] == outs[1]
+					}
+					os.RemoveAll(tmpd)
+					what := "goalign " + strings.Join(args[:2], " ") + " --ref-seq -s -l on a file holding the alignment twice: both results equal"
+					term := fmt.Sprintf("mk %s %s (OpCli %s) %s %s %s", coqZ(alpha), coqRows(names, seqs), coqStr(what), coqBool(!agree), coqRows(names, seqs), coqZ(L))
+					w.add(term, map[string]interface{}{"op": "cli:mask twice", "alphabet": alpha, "names": names, "seqs": seqs, "args": args, "agree": agree})
+					stats["cli:mask twice"]++
+				}
+			}
 		}
 		switch r.Intn(3) {
 		case 0:
